@@ -15,19 +15,27 @@ OBLIGATIONS = [
 ]
 
 
-def discharge(wd, log):
+QUEUE_OBLIGATIONS = [
+    ("Init => IndInv", ["--init=Init", "--inv=IndInv", "--length=0"]),
+    ("IndInv /\\ Next => IndInv'", ["--init=IndInit", "--inv=IndInv", "--length=1"]),
+    ("IndInv => JoinExact", ["--init=IndInit", "--inv=JoinExact", "--length=0"]),
+]
+
+
+def discharge(wd, log, module="SlotAccounting", obligations=None, cinit=("--cinit=ConstInit",), what="for every size N"):
+    obligations = OBLIGATIONS if obligations is None else obligations
     d = os.path.join(wd, "apalache")
     os.makedirs(d, exist_ok=True)
-    shutil.copy(os.path.join(common.SPEC, "SlotAccounting.tla"), d)
-    res = {"obligations": len(OBLIGATIONS), "discharged": 0, "refuted": [], "errors": [], "details": [],
-           "checker_cmd": "apalache-mc check --cinit=ConstInit <--init/--inv/--length per obligation> SlotAccounting.tla"}
+    shutil.copy(os.path.join(common.SPEC, module + ".tla"), d)
+    res = {"obligations": len(obligations), "discharged": 0, "refuted": [], "errors": [], "details": [],
+           "checker_cmd": "apalache-mc check %s <--init/--inv/--length per obligation> %s.tla" % (" ".join(cinit), module)}
     if shutil.which("apalache-mc") is None:
         res["errors"].append("apalache-mc not found")
         return res
-    for name, args in OBLIGATIONS:
+    for name, args in obligations:
         t0 = time.time()
         try:
-            p = subprocess.run(["apalache-mc", "check", "--cinit=ConstInit"] + args + ["--out-dir=" + os.path.join(d, "out"), "SlotAccounting.tla"],
+            p = subprocess.run(["apalache-mc", "check"] + list(cinit) + args + ["--out-dir=" + os.path.join(d, "out"), module + ".tla"],
                                cwd=d, stdout=subprocess.PIPE, stderr=subprocess.STDOUT, text=True, timeout=300)
             out = p.stdout
         except subprocess.TimeoutExpired:
@@ -42,6 +50,6 @@ def discharge(wd, log):
         else:
             res["errors"].append(name + ": " + out[-200:])
     shutil.rmtree(os.path.join(d, "out"), ignore_errors=True)
-    log("Apalache: %d of %d obligations of SlotAccounting discharged (for every size N)%s" % (
-        res["discharged"], res["obligations"], (" REFUTED: %s" % res["refuted"]) if res["refuted"] else ""))
+    log("Apalache: %d of %d obligations of %s discharged (%s)%s" % (
+        res["discharged"], res["obligations"], module, what, (" REFUTED: %s" % res["refuted"]) if res["refuted"] else ""))
     return res
